@@ -148,56 +148,73 @@ def RDictItem.erase : RDictItem → DictItem
 
 /-! ## the generic ranged tree (kinds and slots as in the `{:?}` dump of the Rust structs) -/
 
+def RExpr.kind : RExpr → String
+  | .name .. => "ExprName" | .const .. => "ExprConstant" | .boolOp .. => "ExprBoolOp"
+  | .namedExpr .. => "ExprNamedExpr" | .binOp .. => "ExprBinOp" | .unaryOp .. => "ExprUnaryOp"
+  | .lambda .. => "ExprLambda" | .ifExp .. => "ExprIfExp" | .dict .. => "ExprDict" | .set .. => "ExprSet"
+  | .listComp .. => "ExprListComp" | .setComp .. => "ExprSetComp" | .dictComp .. => "ExprDictComp"
+  | .genExp .. => "ExprGeneratorExp" | .await .. => "ExprAwait" | .yield .. => "ExprYield"
+  | .yieldFrom .. => "ExprYieldFrom" | .compare .. => "ExprCompare" | .call .. => "ExprCall"
+  | .formattedValue .. => "ExprFormattedValue" | .joinedStr .. => "ExprJoinedStr" | .attribute .. => "ExprAttribute"
+  | .subscript .. => "ExprSubscript" | .starred .. => "ExprStarred" | .list .. => "ExprList"
+  | .tuple .. => "ExprTuple" | .slice .. => "ExprSlice"
+
 def argTree (slot : String) (a : Rg × Ident) : Tree := .node "Arg" slot false (some a.1) []
 
 mutual
-/-- `slot` / `inList`: the field of the parent the node sits in -/
-def RExpr.toTree (slot : String) (il : Bool) : RExpr → Tree
-  | .name rg _ => .node "ExprName" slot il (some rg) []
-  | .const rg _ => .node "ExprConstant" slot il (some rg) []
-  | .boolOp rg _ vs => .node "ExprBoolOp" slot il (some rg) (toTrees "values" vs)
-  | .namedExpr rg t v => .node "ExprNamedExpr" slot il (some rg) [t.toTree "target" false, v.toTree "value" false]
-  | .binOp rg l _ r => .node "ExprBinOp" slot il (some rg) [l.toTree "left" false, r.toTree "right" false]
-  | .unaryOp rg _ e => .node "ExprUnaryOp" slot il (some rg) [e.toTree "operand" false]
-  | .lambda rg argsRg po ar va ko kw b =>
-    .node "ExprLambda" slot il (some rg)
-      [.node "Arguments" "args" false (some argsRg)
-         (paramTrees "posonlyargs" po ++ paramTrees "args" ar ++ (va.map (argTree "vararg")).toList ++
-          paramTrees "kwonlyargs" ko ++ (kw.map (argTree "kwarg")).toList),
-       b.toTree "body" false]
-  | .ifExp rg t b o => .node "ExprIfExp" slot il (some rg) [t.toTree "test" false, b.toTree "body" false, o.toTree "orelse" false]
-  | .dict rg items => .node "ExprDict" slot il (some rg) (keyTrees items ++ valueTrees items)
-  | .set rg es => .node "ExprSet" slot il (some rg) (toTrees "elts" es)
-  | .listComp rg e gs => .node "ExprListComp" slot il (some rg) (e.toTree "elt" false :: compTrees gs)
-  | .setComp rg e gs => .node "ExprSetComp" slot il (some rg) (e.toTree "elt" false :: compTrees gs)
-  | .dictComp rg k v gs =>
-    .node "ExprDictComp" slot il (some rg) (k.toTree "key" false :: v.toTree "value" false :: compTrees gs)
-  | .genExp rg e gs => .node "ExprGeneratorExp" slot il (some rg) (e.toTree "elt" false :: compTrees gs)
-  | .await rg e => .node "ExprAwait" slot il (some rg) [e.toTree "value" false]
-  | .yield rg e => .node "ExprYield" slot il (some rg) (optTree "value" e)
-  | .yieldFrom rg e => .node "ExprYieldFrom" slot il (some rg) [e.toTree "value" false]
-  | .compare rg l _ cs => .node "ExprCompare" slot il (some rg) (l.toTree "left" false :: toTrees "comparators" cs)
-  | .call rg f as ks => .node "ExprCall" slot il (some rg) (f.toTree "func" false :: (toTrees "args" as ++ kwTrees ks))
-  | .formattedValue rg v _ spec =>
-    .node "ExprFormattedValue" slot il (some rg) (v.toTree "value" false :: optTree "format_spec" spec)
-  | .joinedStr rg vs => .node "ExprJoinedStr" slot il (some rg) (toTrees "values" vs)
-  | .attribute rg e _ => .node "ExprAttribute" slot il (some rg) [e.toTree "value" false]
-  | .subscript rg e s => .node "ExprSubscript" slot il (some rg) [e.toTree "value" false, s.toTree "slice" false]
-  | .starred rg e => .node "ExprStarred" slot il (some rg) [e.toTree "value" false]
-  | .list rg es => .node "ExprList" slot il (some rg) (toTrees "elts" es)
-  | .tuple rg es => .node "ExprTuple" slot il (some rg) (toTrees "elts" es)
-  | .slice rg a b c => .node "ExprSlice" slot il (some rg) (optTree "lower" a ++ optTree "upper" b ++ optTree "step" c)
+/-- the ranged nodes directly below a node, in schema order (`ast/src/gen/generic.rs`), list elements in list
+    order; a child knows the field it sits in and whether that field is a list -/
+def RExpr.children : RExpr → List Tree
+  | .name _ _ => []
+  | .const _ _ => []
+  | .boolOp _ _ vs => toTrees "values" vs
+  | .namedExpr _ t v =>
+    [.node t.kind "target" false (some t.range) t.children, .node v.kind "value" false (some v.range) v.children]
+  | .binOp _ l _ r =>
+    [.node l.kind "left" false (some l.range) l.children, .node r.kind "right" false (some r.range) r.children]
+  | .unaryOp _ _ e => [.node e.kind "operand" false (some e.range) e.children]
+  | .lambda _ argsRg po ar va ko kw b =>
+    [.node "Arguments" "args" false (some argsRg)
+       (paramTrees "posonlyargs" po ++ paramTrees "args" ar ++ (va.map (argTree "vararg")).toList ++
+        paramTrees "kwonlyargs" ko ++ (kw.map (argTree "kwarg")).toList),
+     .node b.kind "body" false (some b.range) b.children]
+  | .ifExp _ t b o =>
+    [.node t.kind "test" false (some t.range) t.children, .node b.kind "body" false (some b.range) b.children,
+     .node o.kind "orelse" false (some o.range) o.children]
+  | .dict _ items => keyTrees items ++ valueTrees items
+  | .set _ es => toTrees "elts" es
+  | .listComp _ e gs => .node e.kind "elt" false (some e.range) e.children :: compTrees gs
+  | .setComp _ e gs => .node e.kind "elt" false (some e.range) e.children :: compTrees gs
+  | .dictComp _ k v gs =>
+    .node k.kind "key" false (some k.range) k.children :: .node v.kind "value" false (some v.range) v.children ::
+      compTrees gs
+  | .genExp _ e gs => .node e.kind "elt" false (some e.range) e.children :: compTrees gs
+  | .await _ e => [.node e.kind "value" false (some e.range) e.children]
+  | .yield _ e => optTree "value" e
+  | .yieldFrom _ e => [.node e.kind "value" false (some e.range) e.children]
+  | .compare _ l _ cs => .node l.kind "left" false (some l.range) l.children :: toTrees "comparators" cs
+  | .call _ f as ks => .node f.kind "func" false (some f.range) f.children :: (toTrees "args" as ++ kwTrees ks)
+  | .formattedValue _ v _ spec => .node v.kind "value" false (some v.range) v.children :: optTree "format_spec" spec
+  | .joinedStr _ vs => toTrees "values" vs
+  | .attribute _ e _ => [.node e.kind "value" false (some e.range) e.children]
+  | .subscript _ e s =>
+    [.node e.kind "value" false (some e.range) e.children, .node s.kind "slice" false (some s.range) s.children]
+  | .starred _ e => [.node e.kind "value" false (some e.range) e.children]
+  | .list _ es => toTrees "elts" es
+  | .tuple _ es => toTrees "elts" es
+  | .slice _ a b c => optTree "lower" a ++ optTree "upper" b ++ optTree "step" c
 def toTrees (slot : String) : List RExpr → List Tree
   | [] => []
-  | e :: es => e.toTree slot true :: toTrees slot es
+  | e :: es => .node e.kind slot true (some e.range) e.children :: toTrees slot es
 def optTree (slot : String) : Option RExpr → List Tree
   | none => []
-  | some e => [e.toTree slot false]
+  | some e => [.node e.kind slot false (some e.range) e.children]
 def compTrees : List RComp → List Tree
   | [] => []
   | .mk rg t i ifs _ :: gs =>
     .node "Comprehension" "generators" true (some rg)
-      (t.toTree "target" false :: i.toTree "iter" false :: toTrees "ifs" ifs) :: compTrees gs
+      (.node t.kind "target" false (some t.range) t.children :: .node i.kind "iter" false (some i.range) i.children ::
+        toTrees "ifs" ifs) :: compTrees gs
 def paramTrees (slot : String) : List RParam → List Tree
   | [] => []
   | .mk rg defRg _ d :: ps =>
@@ -205,15 +222,19 @@ def paramTrees (slot : String) : List RParam → List Tree
       (.node "Arg" "def" false (some defRg) [] :: optTree "default" d) :: paramTrees slot ps
 def kwTrees : List RKeyword → List Tree
   | [] => []
-  | .mk rg _ v :: ks => .node "Keyword" "keywords" true (some rg) [v.toTree "value" false] :: kwTrees ks
+  | .mk rg _ v :: ks =>
+    .node "Keyword" "keywords" true (some rg) [.node v.kind "value" false (some v.range) v.children] :: kwTrees ks
 def keyTrees : List RDictItem → List Tree
   | [] => []
   | .mk none _ :: is => keyTrees is
-  | .mk (some k) _ :: is => k.toTree "keys" true :: keyTrees is
+  | .mk (some k) _ :: is => .node k.kind "keys" true (some k.range) k.children :: keyTrees is
 def valueTrees : List RDictItem → List Tree
   | [] => []
-  | .mk _ v :: is => v.toTree "values" true :: valueTrees is
+  | .mk _ v :: is => .node v.kind "values" true (some v.range) v.children :: valueTrees is
 end
+
+/-- the generic tree of a ranged expression; `slot` / `inList`: the field of the parent the node sits in -/
+def RExpr.toTree (slot : String) (il : Bool) (e : RExpr) : Tree := .node e.kind slot il (some e.range) e.children
 
 /-! ## span tables -/
 
@@ -332,6 +353,25 @@ def tabOf (spans : List Rg) : SpanTab := fun k =>
 /-- the tokens of `"(" ++ text ++ ")"` lexed at `loc - 1` (`parse_fstring_expr`) -/
 def fieldTab (loc : Nat) (text : List Nat) : SpanTab :=
   tabOf ((loc - 1, loc) :: lexSpans loc text ++ [(loc + ulen text, loc + ulen text + 1)])
+
+/-! ## string tokens (`parse_strings`) -/
+
+def isBytesTok : Tok → Bool
+  | .bytes _ => true
+  | _ => false
+def isFstrTok : Tok → Bool
+  | .fstr .. => true
+  | _ => false
+def bytesOfTok : Tok → List Nat
+  | .bytes b => b
+  | _ => []
+def strOfTok : Tok → List Nat
+  | .str s _ => s
+  | _ => []
+/-- `initial_kind`: the first literal has the `u` prefix -/
+def initialUOf : List Tok → Bool
+  | .str _ true :: _ => true
+  | _ => false
 
 mutual
 
@@ -1008,18 +1048,16 @@ def parseRStrings (σ : SpanTab) : Nat → List Tok → PR RExpr
   | f + 1, ts =>
     let strs := ts.takeWhile isStringTok
     let rest := ts.dropWhile isStringTok
-    let nBytes := (strs.filter (fun | .bytes _ => true | _ => false)).length
-    let hasF := strs.any (fun | .fstr .. => true | _ => false)
-    let initialU := match strs with | .str _ true :: _ => true | _ => false
+    let nBytes := (strs.filter isBytesTok).length
     let rg : Rg := (L σ ts, R σ rest)
     if nBytes > 0 then
       if nBytes < strs.length then none
-      else some (.const rg (.bytes (strs.flatMap (fun | .bytes b => b | _ => []))), rest)
-    else if !hasF then
-      some (.const rg (.str (strs.flatMap (fun | .str s _ => s | _ => [])) initialU), rest)
+      else some (.const rg (.bytes (strs.flatMap bytesOfTok)), rest)
+    else if !strs.any isFstrTok then
+      some (.const rg (.str (strs.flatMap strOfTok) (initialUOf strs)), rest)
     else
       match parseRStringPieces σ f rest.length strs with
-      | some pieces => some (.joinedStr rg (dedupRPieces rg initialU pieces none), rest)
+      | some pieces => some (.joinedStr rg (dedupRPieces rg (initialUOf strs) pieces none), rest)
       | none => none
 termination_by structural f => f
 
